@@ -444,7 +444,7 @@ func (in *inliner) expand(fn *Fn, h *Fn, call *ast.CallExpr, lhs []ast.Expr, tok
 		if v.Name() == "" || v.Name() == "_" {
 			return
 		}
-		if pureExpr(ci, arg) && !assignedIn(hi, h.Decl.Body, v) {
+		if pureExpr(ci, arg) && !assignedIn(hi, h.Decl.Body, v) && stableDuring(ci, arg, hi, h.Decl.Body) {
 			subst[v] = arg
 			return
 		}
@@ -457,7 +457,14 @@ func (in *inliner) expand(fn *Fn, h *Fn, call *ast.CallExpr, lhs []ast.Expr, tok
 				}
 			}
 		}
-		pre = append(pre, in.bind(hi, v, arg, pos))
+		// otherwise the argument is captured at the call, in a variable that is private to this expansion site (a fresh
+		// object, so that two expansions of one helper do not look like two assignments of one variable)
+		nv := types.NewVar(pos, v.Pkg(), v.Name(), v.Type())
+		pre = append(pre, in.bind(hi, nv, arg, pos))
+		uid := &ast.Ident{NamePos: pos, Name: v.Name()}
+		hi.Uses[uid] = nv
+		hi.Types[uid] = types.TypeAndValue{Type: v.Type()}
+		subst[v] = uid
 	}
 	if rv := sig.Recv(); rv != nil {
 		sel, ok := ast.Unparen(call.Fun).(*ast.SelectorExpr)
